@@ -102,4 +102,16 @@ static int spec_alg_obsolete_rule_fails(int status_at) { return status_at == 2; 
 /* chain index continuation (INT-12): the index of chain k (length n_k, elements idx_k[]) extends that of chain k+1:
  * n_k == n_{k+1} + 1 and idx_k[j] == idx_{k+1}[j] for j < n_{k+1}.  Evaluated pairwise by the ghost monitor. */
 static int spec_index_len_extends(unsigned long long n_prev, unsigned long long n_next) { return n_prev == n_next + 1; }
+
+/* metadata padding (INT-11, KSI format): the first element of a metadata record, tag 0x1E, encoded as TLV8 (first header
+ * octet without the 16-bit flag 0x80), with the non-critical (0x40) and forward (0x20) flags set, value 01 or 01 01.
+ * first_octet: first octet of the element; v0, v1: first two payload octets. */
+static int spec_metadata_padding_ok(unsigned tag, int is_nc, int is_fwd, unsigned first_octet, unsigned long long dat_len, unsigned v0, unsigned v1) {
+	if (tag != 0x1e) return 0;
+	if (first_octet & 0x80u) return 0;
+	if (!is_nc || !is_fwd) return 0;
+	if (dat_len == 1) return v0 == 0x01;
+	if (dat_len == 2) return v0 == 0x01 && v1 == 0x01;
+	return 0;
+}
 #endif
